@@ -26,7 +26,7 @@ Import ListNotations.
 (* list.index(v) (length of the list when absent: the code raises) and np.delete / del l[i] *)
 Fixpoint index_of (v : nat) (l : list nat) : nat :=
   match l with [] => 0 | x :: tl => if Nat.eqb x v then 0 else S (index_of v tl) end.
-Fixpoint remove_at {A : Type} (i : nat) (l : list A) : list A :=
+Fixpoint remove_at {A : Type} (i : nat) (l : list A) {struct l} : list A :=
   match l, i with
   | [], _ => []
   | _ :: tl, O => tl
@@ -34,8 +34,11 @@ Fixpoint remove_at {A : Type} (i : nat) (l : list A) : list A :=
   end.
 
 (* the row function of a positional row: variable sc[k] has value xs[k] *)
-Definition row_of (sc : list nat) (xs : list Z) : row :=
-  fun u => if memb u sc then nth_error xs (index_of u sc) else None.
+Fixpoint row_of (sc : list nat) (xs : list Z) (u : nat) : option Z :=
+  match sc, xs with
+  | a :: sc', x :: xs' => if Nat.eqb a u then Some x else row_of sc' xs' u
+  | _, _ => None
+  end.
 
 Definition matrix := list (list Z).
 Definition mcell (X : matrix) (i j : nat) : Z := nth j (nth i X []) 0%Z.
